@@ -1,11 +1,57 @@
 (* Non-vacuity examples and refutation witnesses for C11. *)
 From Coq Require Import List String Bool ZArith.
-From PAFC11 Require Import Lib Gen Model Proofs.
+From PAFC11 Require Import Lib Gen Model Proofs Proofs2 Proofs3 Proofs4.
 Import ListNotations.
 Open Scope string_scope.
 Open Scope list_scope.
 
+(* the Drawer defect and its repair, on the constructor chains *)
 Example drawer_pinned_fails : reload_ok drawer_pinned ["name"; "number_of_cores"; "total_draws"] = false.
 Proof. vm_compute. reflexivity. Qed.
-Example drawer_repaired_ok : reload_ok drawer_repaired (serialised_keys drawer_repaired) = true.
+Example drawer_repaired_reads : reload_ok drawer_repaired (serialised_keys drawer_repaired) = true.
+Proof. vm_compute. reflexivity. Qed.
+Example some_class_is_not_drawer : exists c, In c search_classes /\ sc_name c <> "Drawer".
+Proof. exists (hd drawer_pinned (filter not_drawer search_classes)). vm_compute. split; [tauto | discriminate]. Qed.
+
+(* the hypotheses of the grid theorems are satisfiable: the two-grid directory under the repaired id *)
+Example two_grids_wf_fixed : wf [] true false two_grids.
+Proof.
+  split.
+  - intros f Hf. vm_compute in Hf. destruct Hf as [<-|[<-|[]]]; split; reflexivity.
+  - vm_compute. repeat constructor; simpl; intuition discriminate.
+Qed.
+Example two_grids_disjoint : cells_disjoint true false two_grids.
+Proof.
+  intros g g' id Hg Hg' H1 H2. vm_compute in Hg, Hg'.
+  destruct Hg as [<-|[<-|[]]]; destruct Hg' as [<-|[<-|[]]]; try reflexivity;
+    vm_compute in H1, H2; exfalso; intuition congruence.
+Qed.
+Example two_grids_parents : parent_files_consistent true false two_grids.
+Proof.
+  intros f g Hf Hg E. vm_compute in Hf, Hg.
+  destruct Hf as [<-|[<-|[]]]; destruct Hg as [<-|[<-|[]]]; vm_compute in E; vm_compute;
+    try (left; reflexivity); try discriminate.
+Qed.
+(* ... and not under the pinned id (both markers are "t1") *)
+Example two_grids_not_wf_pinned : ~ NoDup (map (gs_id false) (grids false two_grids)).
+Proof. vm_compute. intro H. inversion H; subst. apply H2. left. reflexivity. Qed.
+
+(* a fit the session route and the directory route agree on *)
+Definition spec_a : fit_spec :=
+  {| fs_prefix := ["pp"]; fs_tag := Some "t1"; fs_name := "s1"; fs_id := "abc"; fs_class := "ScriptedSearch";
+     fs_keys := ["name"]; fs_reload_id := "abc"; fs_model := "m"; fs_stored_model := "m"; fs_load_error := None;
+     fs_info := Some "i";
+     fs_samples := [{| s_vec := "v0"; s_ll := (-4)%Z; s_inst := "i0" |}; {| s_vec := "v1"; s_ll := (-2)%Z; s_inst := "i1" |};
+                    {| s_vec := "v2"; s_ll := (-2)%Z; s_inst := "i2" |}];
+     fs_interrupt := NoInterrupt; fs_extra_jsons := ["attr"]; fs_analyses := [["attr"]; ["attr"]] |}.
+Example spec_a_ok : spec_ok search_classes spec_a /\ NoDup (flat_map ids_of (map write_fit [spec_a])).
+Proof. split; [repeat split | vm_compute; repeat constructor; simpl; intuition discriminate]. Qed.
+Example spec_a_loaded :
+  exists db, scrape search_classes gs_id_uses_folder false [write_fit spec_a] [] = Loaded db /\
+             map r_id db = ["abc"; "abc_0"; "abc_1"] /\
+             option_map r_instance (find_row "abc" db) = Some (Some "i1").
+Proof. eexists. split; [vm_compute; reflexivity | vm_compute; split; reflexivity]. Qed.
+
+(* first strict maximum *)
+Example best_first_of_ties : option_map s_vec (best (fs_samples spec_a)) = Some "v1".
 Proof. vm_compute. reflexivity. Qed.
